@@ -6,6 +6,11 @@ Case kinds
               send(), peer close).  Correspondence with Model/Http1Seg.v (exact commands / ReceiveHttp events per
               event); oracle: the receive-side event stream (adjacent data merged) equals that of the unsplit stream.
   buf       : a real h11 ReceiveBuffer driven with random operations (correspondence only).
+  upg       : a real HttpLayer through lib.sansio.Driver for an Upgrade exchange (101 to websocket / raw tcp, optionally
+              after a plain request): the client sends the first bytes of the upgraded protocol without waiting for
+              the 101; they are cut at every point relative to the request and interleaved before/after the 101;
+              oracle: no crash, same flows (HTTP, websocket messages, tcp bytes per direction), hooks, bytes to each
+              peer as for the unsplit delivery.  Not sent to Coq.
   e2e       : a real HttpLayer (regular mode) through lib.sansio.Driver: one client byte stream with pipelined
               requests, one response per forwarded request, delivered under a segmentation of both streams and an
               interleaving; oracle: flows, per-flow hook sequences and per-connection traffic equal those of the
@@ -21,7 +26,7 @@ RULE = ("55% srv/cli direct-drive cases: a stream of 1-4 pipelined messages from
         "HTTP/1.0/1.1, Content-Length / chunked with extensions and trailers / read-until-EOF bodies, blank lines between "
         "messages, 101/CONNECT upgrades), 30% of them byte-mutated, under a segmentation (whole, one cut at a chosen point, "
         "1-byte segments, 1-3 random cuts, cuts at CR/LF positions) and a response timing per request; 10% ReceiveBuffer "
-        "operation sequences; 35% e2e HttpLayer cases (same grammar, optional streaming policy, both streams segmented, "
+        "operation sequences; 12% upg cases (Upgrade to websocket / raw tcp through HttpLayer with early tunnel bytes cut and interleaved around the 101); 25% e2e HttpLayer cases (same grammar, optional streaming policy, both streams segmented, "
         "random interleaving, Expect: 100-continue requests with an origin that honours it, hook completions delayed by 0-4 segments); thorough adds every single cut point for 30 base streams. Distinct by canonical JSON; "
         "non-trivial = at least one message head was extracted (srv/cli/e2e) or one extraction succeeded (buf).")
 TRUSTED = ["Coq 8.16.1 kernel (coqc), vm_compute for case evaluation",
@@ -289,6 +294,57 @@ def gen_e2e(rng, forced=None):
             "hook_delay": _w(rng, [(0, 5), (1, 3), (2, 1), (4, 1)])}
 
 
+
+def _ws_frame(payload, masked, opcode=1):
+    assert len(payload) < 126
+    if not masked:
+        return bytes([0x80 | opcode, len(payload)]) + payload
+    mask = b"\x11\x22\x33\x44"
+    return bytes([0x80 | opcode, 0x80 | len(payload)]) + mask + bytes(c ^ mask[i % 4] for i, c in enumerate(payload))
+
+
+def gen_upg(rng):
+    """an Upgrade exchange through the real HttpLayer: the client does not wait for the 101 before it sends the first
+    bytes of the upgraded protocol"""
+    ws = rng.chance(0.45)
+    parts = []
+    resps = []
+    if rng.chance(0.35):
+        parts.append(b"GET http://example.com/before HTTP/1.1\r\nHost: example.com\r\n\r\n")
+        rb = b"HTTP/1.1 200 OK\r\nContent-Length: 2\r\n\r\nok"
+        resps.append({"b": hx(rb), "cuts": make_cuts(rng, len(rb))})
+    if ws:
+        rq = (b"GET http://example.com/chat HTTP/1.1\r\nHost: example.com\r\nConnection: Upgrade\r\nUpgrade: websocket\r\n"
+              b"Sec-WebSocket-Key: dGhlIHNhbXBsZSBub25jZQ==\r\nSec-WebSocket-Version: 13\r\n\r\n")
+        early = b"".join(_ws_frame(_body(rng, rng.choice([0, 1, 5, 20])).replace(b"\r", b"a").replace(b"\n", b"b"), True,
+                                   rng.choice([1, 2])) for _ in range(rng.randint(0, 3)))
+        tail = b"".join(_ws_frame(rng.bytes(rng.choice([1, 4, 17]), b"serverdata"), False, rng.choice([1, 2])) for _ in range(rng.randint(0, 2)))
+        rb = (b"HTTP/1.1 101 Switching Protocols\r\nConnection: Upgrade\r\nUpgrade: websocket\r\n"
+              b"Sec-WebSocket-Accept: s3pPLMBiTxaQ9kYGzzhZRbK+xOo=\r\n\r\n") + tail
+    else:
+        rq = b"GET http://example.com/chat HTTP/1.1\r\nHost: example.com\r\nConnection: Upgrade\r\nUpgrade: frobnicate/1\r\n\r\n"
+        early = _w(rng, [(b"", 1), (b"HELLO first bytes of the upgraded protocol", 3), (b"\x00\x01binary\xff", 2), (b"x", 1),
+                         (b"GET /looks-like-http HTTP/1.1\r\n\r\n", 1), (b"\r\nleading newline", 1), (b"\n\n", 1)])
+        if early and rng.chance(0.3):
+            early += _body(rng, rng.choice([3, 30]))
+        tail = _w(rng, [(b"", 2), (b"WELCOME", 2), (b"\r\nserver first", 1), (b"s" * 40, 1)])
+        rb = b"HTTP/1.1 101 Switching Protocols\r\nConnection: Upgrade\r\nUpgrade: frobnicate/1\r\n\r\n" + tail
+    parts.append(rq)
+    head_len = len(b"".join(parts))
+    s = b"".join(parts) + early
+    resps.append({"b": hx(rb), "cuts": make_cuts(rng, len(rb))})
+    r = rng.random()
+    if r < 0.25:
+        cuts = [head_len] if 0 < head_len < len(s) else []           # request | early bytes
+    elif r < 0.45 and len(s) > head_len + 1:
+        cuts = [rng.randint(head_len, len(s) - 1)]                   # somewhere inside / at the start of the early bytes
+    else:
+        cuts = make_cuts(rng, len(s))
+    return {"k": "upg", "ws": ws, "client": hx(s), "head_len": head_len, "nreq": len(parts), "cuts": cuts, "resps": resps,
+            "order": [rng.chance(0.5) for _ in range(24)], "close": rng.chance(0.4),
+            "hook_delay": _w(rng, [(0, 5), (1, 3), (2, 1), (4, 1)])}
+
+
 def gen(rng, n, tier):
     out = []
     if tier == "thorough":
@@ -306,14 +362,20 @@ def gen(rng, n, tier):
             base = gen_e2e(rng)
             for c in range(1, min(len(unhx(base["client"])), 300)):
                 out.append(dict(base, cuts=[c]))
+        for _ in range(8):
+            base = gen_upg(rng)
+            for c in range(1, min(len(unhx(base["client"])), 300)):
+                out.append(dict(base, cuts=[c]))
     for _ in range(n):
         r = rng.random()
         if r < 0.33:
             out.append(gen_direct(rng, "srv"))
         elif r < 0.55:
             out.append(gen_direct(rng, "cli"))
-        elif r < 0.65:
+        elif r < 0.63:
             out.append(gen_buf(rng))
+        elif r < 0.75:
+            out.append(gen_upg(rng))
         else:
             out.append(gen_e2e(rng))
     return out
@@ -936,6 +998,131 @@ def _e2e_run(case, ccuts, split_resps, order, hook_delay=0):
     return out
 
 
+
+def _upg_run(case, ccuts, split_resps, order, hook_delay=0):
+    """one Upgrade exchange (optionally after a plain request) through a real HttpLayer: HttpStream hands the two
+    connections over to a WebsocketLayer / TCPLayer"""
+    sansio, lhttp = _M["sansio"], _M["lhttp"]
+    waiting = []
+
+    def policy(hook, drv):
+        if hook.blocking and hook_delay:
+            waiting.append([hook, hook_delay])
+            return sansio.DEFER
+
+    d = sansio.Driver(lambda ctx: lhttp.HttpLayer(ctx, lhttp.HTTPMode.regular), policy=policy)
+    d.start()
+    csegs = segments(unhx(case["client"]), ccuts)
+    pending, answered, oi = [], [0], [0]
+
+    def refill():
+        if len(d.conns) < 2:
+            return
+        n = min(case["nreq"], d.sent(1).count(b"\r\n\r\n"))
+        while answered[0] < n:
+            r = case["resps"][answered[0]]
+            answered[0] += 1
+            raw = unhx(r["b"])
+            for s in (segments(raw, r["cuts"]) if split_resps else [raw]):
+                pending.append(s)
+
+    def tick(flush=False):
+        for w in waiting:
+            w[1] -= 1
+        while waiting and (flush or waiting[0][1] <= 0) and d.crashed is None:
+            d.complete(waiting.pop(0)[0])
+
+    steps = 0
+    while (csegs or pending or waiting) and d.crashed is None and steps < 4000:
+        steps += 1
+        if not csegs and not pending:
+            tick(flush=True)
+            refill()
+            continue
+        take_client = bool(csegs) and (not pending or order[oi[0] % len(order)])
+        oi[0] += 1
+        if take_client:
+            s = csegs.pop(0)
+            if d.conns[0].state & d.CS.CAN_READ and d.conns[0].state is not d.CS.CLOSED:
+                d.data(0, s)
+        else:
+            s = pending.pop(0)
+            conn = d.conns[1]
+            if conn.state is d.CS.CLOSED or not (conn.state & d.CS.CAN_READ):
+                continue
+            d.data(1, s)
+        tick()
+        refill()
+    if case["close"] and d.crashed is None and d.conns[0].state & d.CS.CAN_READ:
+        d.close(0)
+        tick(flush=True)
+    return _upg_outcome(d, case)
+
+
+def _ws_frames(raw):
+    """small websocket frames with the masking undone (the proxy masks with a random key)"""
+    out = []
+    while raw:
+        if len(raw) < 2 or (raw[1] & 0x7f) >= 126:
+            out.append(["raw", hx(raw)]); break
+        ln, masked = raw[1] & 0x7f, raw[1] & 0x80
+        need = 2 + (4 if masked else 0) + ln
+        if len(raw) < need:
+            out.append(["raw", hx(raw)]); break
+        if masked:
+            m = raw[2:6]
+            pl = bytes(c ^ m[i % 4] for i, c in enumerate(raw[6:6 + ln]))
+        else:
+            pl = raw[2:2 + ln]
+        out.append([raw[0], bool(masked), hx(pl)])
+        raw = raw[need:]
+    return out
+
+
+def _upg_outcome(d, case):
+    flows = []
+    for i, f in enumerate(d.flows):
+        hooks = []
+        for h in d.hook_names(i):
+            if not (hooks and hooks[-1] == h == "tcp_message"):      # one tcp_message per received chunk, by design
+                hooks.append(h)
+        if hasattr(f, "request"):
+            e = {"t": "http", "req": _msg(f.request), "resp": _msg(f.response), "error": f.error is not None, "hooks": hooks}
+            if f.websocket is not None:
+                # the relative order of the two directions is a matter of arrival order
+                e["ws_from_client"] = [[hx(m.content), bool(m.dropped), int(m.type)] for m in f.websocket.messages if m.from_client]
+                e["ws_from_server"] = [[hx(m.content), bool(m.dropped), int(m.type)] for m in f.websocket.messages if not m.from_client]
+            flows.append(e)
+        elif hasattr(f, "messages"):
+            flows.append({"t": "tcp", "from_client": hx(b"".join(m.content for m in f.messages if m.from_client)),
+                          "from_server": hx(b"".join(m.content for m in f.messages if not m.from_client)),
+                          "error": f.error is not None, "hooks": hooks})
+        else:
+            flows.append({"t": type(f).__name__, "hooks": hooks})
+    to_client = d.sent(0)
+    to_server = d.sent(1) if len(d.conns) > 1 else b""
+    # the first nreq heads are HTTP, the rest belongs to the upgraded protocol
+    pos = 0
+    for _ in range(case["nreq"]):
+        j = to_server.find(b"\r\n\r\n", pos)
+        if j < 0:
+            pos = len(to_server); break
+        pos = j + 4
+    tunnel = to_server[pos:]
+    closes = {}
+    for t in d.trace:
+        if t[0] == "close":
+            closes.setdefault(str(t[1]), []).append(t[2])
+    j = to_client.find(b"HTTP/1.1 101 ")
+    j = to_client.find(b"\r\n\r\n", j) if j >= 0 else -1
+    cpos = j + 4 if j >= 0 else len(to_client)
+    return {"flows": flows, "to_client_http": hx(to_client[:cpos]),
+            "to_client_tunnel": _ws_frames(to_client[cpos:]) if case["ws"] else hx(to_client[cpos:]),
+            "to_server_http": hx(to_server[:pos]),
+            "to_server_tunnel": _ws_frames(tunnel) if case["ws"] else hx(tunnel),
+            "closes": closes, "crashed": list(d.crashed) if d.crashed else None, "nflows": len(flows)}
+
+
 def _msg(m):
     if m is None:
         return None
@@ -1031,6 +1218,9 @@ def run_impl(case):
             b = _run_direct(dict(case), [])
             base = _recv_view(b)
         return {"res": res, "view": _recv_view(res), "base": base}
+    if k == "upg":
+        return {"base": _upg_run(case, [], False, [False]),
+                "split": _upg_run(case, case["cuts"], True, case["order"], case.get("hook_delay", 0))}
     base = _e2e_run(case, [], False, [False])
     split = _e2e_run(case, case["cuts"], True, case["order"], case.get("hook_delay", 0))
     return {"base": base, "split": split}
@@ -1085,7 +1275,7 @@ def _event(e):
 
 def coq_case(case, obs):
     k = case["k"]
-    if k == "e2e":
+    if k in ("e2e", "upg"):
         return None
     if k == "buf":
         ops = []
@@ -1112,6 +1302,11 @@ def coq_case(case, obs):
 
 
 # ------------------------------------------------------------------------------------------------ oracle
+def json_copy(o):
+    import json
+    return json.loads(json.dumps(o))
+
+
 def _first_diff(a, b):
     for i, (x, y) in enumerate(zip(a, b)):
         if x != y:
@@ -1168,6 +1363,39 @@ def oracle(case, obs):
         return v
     base, split = obs["base"], obs["split"]
     v = []
+    if k == "upg":
+        for name, o in (("unsplit", base), ("split", split)):
+            if o["crashed"]:
+                v.append({"key": "upgrade-layer-crash-" + o["crashed"][0],
+                          "what": f"HttpLayer raised {o['crashed']} during an Upgrade exchange ({name} delivery, cuts "
+                                  f"{case['cuts'][:12]}): client stream {case['client'][:240]}"})
+        if v:
+            return v
+        if base != split:
+            def lstripped(o):
+                g = json_copy(o)
+                for f in g["flows"]:
+                    if f.get("t") == "tcp":
+                        f["from_client"] = hx(unhx(f["from_client"]).lstrip(b"\r\n"))
+                        f["from_server"] = hx(unhx(f["from_server"]).lstrip(b"\r\n"))
+                        f["hooks"] = [h for h in f["hooks"] if h != "tcp_message"]    # a message of CR/LF only may vanish
+                for kk in ("to_server_tunnel", "to_client_tunnel"):
+                    if isinstance(g[kk], str):
+                        g[kk] = hx(unhx(g[kk]).lstrip(b"\r\n"))
+                return g
+            early = unhx(case["client"])[case["head_len"]:]
+            stail = unhx(case["resps"][-1]["b"]).partition(b"\r\n\r\n")[2]
+            if (early[:1] in (b"\r", b"\n") or stail[:1] in (b"\r", b"\n")) and lstripped(base) == lstripped(split):
+                v.append({"key": "pipe-lstrip-depends-on-segmentation",
+                          "what": f"upgrade through HttpLayer: the CR/LF at the start of a peer's first tunnel bytes is dropped only "
+                                  f"if they are already buffered when the connection becomes a tunnel; cuts {case['cuts'][:12]}"})
+            else:
+                diff = [kk for kk in base if base[kk] != split.get(kk)]
+                v.append({"key": "segmentation-changes-upgrade",
+                          "what": f"Upgrade exchange: {diff} differ between the unsplit delivery and cuts {case['cuts'][:12]} "
+                                  f"(hook delay {case.get('hook_delay', 0)}): {str({kk: split[kk] for kk in diff})[:300]} vs "
+                                  f"{str({kk: base[kk] for kk in diff})[:300]}; client {case['client'][:200]}"})
+        return v
     for name, o in (("unsplit", base), ("split", split)):
         if o["crashed"] and o["crashed"][0] != "NotImplementedError":
             v.append({"key": "layer-crash-" + o["crashed"][0], "what": f"HttpLayer raised {o['crashed']} ({name}) for client stream {case['client'][:160]}"})
@@ -1263,6 +1491,15 @@ def classify(case, obs):
             tags.append("skipped")
         if obs["base"] is not None:
             tags.append("oracle-compared")
+    elif k == "upg":
+        tags.append("upg-ws" if case["ws"] else "upg-tcp")
+        early = unhx(case["client"])[case["head_len"]:]
+        tags.append("upg-early-bytes" if early else "upg-no-early-bytes")
+        if early and (not case["cuts"] or min(case["cuts"]) >= len(unhx(case["client"]))):
+            tags.append("upg-early-with-request")
+        tags.append(f"upg-flows={obs['base']['nflows']}")
+        if case.get("hook_delay"):
+            tags.append("upg-hooks-deferred")
     else:
         tags.append(f"flows={min(obs['base']['nflows'], 4)}")
         if any(f.get("error") for f in obs["base"]["flows"] if isinstance(f, dict)):
